@@ -7,6 +7,7 @@ package discovery
 // X-Forwarded-Host values, against NutsModel/C16/Node.lean. Writes nodeops.jsonl / nodeimpl.out.
 
 import (
+	"regexp"
 	"bufio"
 	"context"
 	"crypto/ecdsa"
@@ -113,6 +114,9 @@ type vnRunner struct {
 	seed int64
 	cfgDir string
 	cfgIDs []string
+	// round 3: a second node (own database) that mirrors ALL lists of the configuration as a client of the first
+	ceng storage.Engine
+	cm   *Module
 }
 
 func (r *vnRunner) emit(op vnOp, line string) {
@@ -344,6 +348,10 @@ func (r *vnRunner) configure() bool {
 		r.t.Fatal(err)
 	}
 	r.cfgDir, r.cfgIDs = op.Dir, op.ServerIDs
+	if r.cm != nil {
+		_ = r.cm.Shutdown()
+		r.cm = nil
+	}
 	m := r.newNode()
 	var cerr error
 	cls := vRecover(func() error { cerr = m.Configure(core.TestServerConfig()); return nil })
@@ -576,6 +584,9 @@ func (r *vnRunner) register() {
 			}
 		}
 	}
+	if class == "valid" && rng.Intn(5) == 0 {
+		class, rec.VerifyC = "valid-but-client-verifier-rejects", false // round 3: the client node's own VerifyVP says no
+	}
 	ctx, f := r.fwd()
 	b := r.w.build(rec)
 	now := vNow()
@@ -587,6 +598,94 @@ func (r *vnRunner) register() {
 	}
 	r.emit(vnOp{Op: "nregister", Now: now, Sid: sid, Fwd: f, VP: b.model, Recipe: &rec, Class: class, ServerIDs: []string{}},
 		"nreg "+out+" k="+r.kind(err)+r.lists())
+}
+
+// the client node asks the first node: what it serves it answers itself (real Module.Get), the rest is unreachable
+type vnClientAdapter struct{ r *vnRunner }
+
+func (a vnClientAdapter) Register(_ context.Context, _ string, _ vc.VerifiablePresentation) error {
+	return errors.New("verif: not used")
+}
+func (a vnClientAdapter) Get(ctx context.Context, endpoint string, timestamp int) (map[string]vc.VerifiablePresentation, string, int, error) {
+	id := endpoint[strings.LastIndex(endpoint, "/")+1:]
+	if _, served := a.r.m.serverDefinitions[id]; !served {
+		return nil, "", 0, errors.New("verif: " + id + " is not served by the other node")
+	}
+	return a.r.m.Get(context.Background(), id, timestamp)
+}
+
+var vnFailedID = regexp.MustCompile(`\(id=([^)]*)\)`)
+
+// update: the real clientUpdater.update() of a second node that is configured with the same definitions directory and
+// mirrors every list in ITS one sqlStore (own database); afterwards every list of the replica is printed
+func (r *vnRunner) update() {
+	if r.ceng == nil {
+		r.ceng = storage.NewTestStorageEngine(r.t)
+		if err := r.ceng.Start(); err != nil {
+			r.t.Fatal(err)
+		}
+	}
+	if r.cm == nil {
+		if err := vTables(r.ceng.GetSQLDatabase()); err != nil {
+			r.t.Fatal(err)
+		}
+		w := r.w
+		ctrl := gomock.NewController(r.t)
+		mv := verifier.NewMockVerifier(ctrl)
+		mv.EXPECT().VerifyVP(gomock.Any(), true, true, nil).DoAndReturn(
+			func(p vc.VerifiablePresentation, _ bool, _ bool, _ *time.Time) ([]vc.VerifiableCredential, error) {
+				if b := w.byRaw[p.Raw()]; b != nil && b.rec.VerifyC {
+					return p.VerifiableCredential, nil
+				}
+				return nil, errors.New("verif: signature invalid")
+			}).AnyTimes()
+		mvcr := vcr.NewMockVCR(ctrl)
+		mvcr.EXPECT().Verifier().Return(mv).AnyTimes()
+		cm := New(r.ceng, mvcr, didsubject.NewMockManager(ctrl), resolver.NewMockDIDResolver(ctrl))
+		cfg := cm.Config().(*Config)
+		*cfg = DefaultConfig()
+		cfg.Client.RefreshInterval = 0
+		cfg.Definitions.Directory = r.cfgDir
+		if err := cm.Configure(core.TestServerConfig()); err != nil {
+			r.t.Fatal(err)
+		}
+		cm.httpClient = vnClientAdapter{r}
+		if err := cm.Start(); err != nil {
+			r.t.Fatal(err)
+		}
+		r.cm = cm
+	}
+	now := vNow()
+	var uerr error
+	cls := vRecover(func() error { uerr = r.cm.clientUpdater.update(context.Background()); return nil })
+	var failed []string
+	if uerr != nil {
+		for _, m := range vnFailedID.FindAllStringSubmatch(uerr.Error(), -1) {
+			failed = append(failed, m[1])
+		}
+		if len(failed) == 0 {
+			cls = "err:" + vErrClass(uerr)
+		}
+	}
+	sort.Strings(failed)
+	var sb strings.Builder
+	for _, id := range r.all {
+		var svc serviceRecord
+		r.cm.store.db.Find(&svc, "id = ?", id)
+		var rows []presentationRecord
+		r.cm.store.db.Find(&rows, "service_id = ?", id)
+		seed := "-"
+		if svc.Seed != "" {
+			seed = "+"
+		}
+		var rs []string
+		for _, row := range rows {
+			rs = append(rs, r.w.rowString(row, true))
+		}
+		sort.Strings(rs)
+		fmt.Fprintf(&sb, " | %s seed=%s ts=%d [%s]", id, seed, svc.LastLamportTimestamp, strings.Join(rs, " "))
+	}
+	r.emit(vnOp{Op: "nupdate", Now: now, ServerIDs: []string{}}, "nupdate "+cls+" failed=["+strings.Join(failed, ",")+"]"+sb.String())
 }
 
 func (r *vnRunner) get() {
@@ -848,7 +947,9 @@ func TestVerifC16Node(t *testing.T) {
 			continue
 		}
 		for k := 0; k < nOps; k++ {
-			switch p := r.rng.Intn(26); {
+			switch p := r.rng.Intn(29); {
+			case p >= 26:
+				r.update()
 			case p == 20:
 				r.restart()
 			case p > 20:
@@ -863,6 +964,11 @@ func TestVerifC16Node(t *testing.T) {
 		}
 		for k := 0; k < 4; k++ { // the lists are filled by now
 			r.searchq()
+		}
+		r.update()
+		if r.rng.Intn(2) == 0 {
+			r.register()
+			r.update()
 		}
 	}
 	t.Logf("C16 node: %d ops", r.nOps)
